@@ -11,5 +11,7 @@ open AgdbColl
 #print axioms C19_values_terminates_partial
 #print axioms C19_index_nowrap
 #print axioms C19_values_terminates
+#print axioms C19_index_chain
+#print axioms MultiMap_refines_partial
 #print axioms C19_every_history_runs
 #print axioms C19_tombstone_counterexample
